@@ -320,7 +320,14 @@ class Parser:
                     shorthand=True,
                 )
             elif stream.current.kind == TOKEN_SLICE_START:
-                yield self.parse_slice(stream)
+                # A slice outside of brackets. Kept as a one item list, so it is
+                # printed in brackets and two of them in a row don't run together.
+                tok = stream.current
+                yield ListSelector(
+                    env=self.env,
+                    token=tok,
+                    items=[self.parse_slice(stream)],
+                )
             elif stream.current.kind == TOKEN_WILD:
                 yield WildSelector(
                     env=self.env,
